@@ -47,7 +47,7 @@ static void load_lib(const char *path) {
 }
 
 /* ---------------------------------------------------------------- operation menu */
-enum { OP_RFC = 1, OP_TLD, OP_MASK, OP_SETUP, OP_FREEINIT, OP_EMAIL, OP_EMAILF, OP_SETUPF };
+enum { OP_RFC = 1, OP_TLD, OP_MASK, OP_SETUP, OP_FREEINIT, OP_EMAIL, OP_EMAILF, OP_SETUPF, OP_OTHER };
 typedef struct { unsigned char t, a, b, c; } op_t;       /* type, arg, fault code index, with-buffer */
 static const int RFCV[6] = { 0, 1, 2, 3, 4, -1 };
 #define M_DEFAULT (8|16|32|64|128|512)
@@ -76,6 +76,7 @@ static void op_str(op_t o, char *out, size_t cap) {
     case OP_SETUPF: snprintf(out, cap, "eav_setup[%s fails]", o.a ? "idn_resconf_initialize" : "idn_resconf_create"); break;
     case OP_FREEINIT: snprintf(out, cap, "eav_free;eav_init"); break;
     case OP_EMAIL: snprintf(out, cap, "eav_is_email(#%d)", o.a); break;
+    case OP_OTHER: snprintf(out, cap, "OTHER-OBJECT.eav_is_email(#%d)", o.a); break;
     case OP_EMAILF: snprintf(out, cap, "eav_is_email(#%d)[idn:=%d%s]", o.a, IDNCODES[o.b], o.c ? "+buf" : ""); break;
     default: snprintf(out, cap, "?"); }
 }
@@ -90,7 +91,8 @@ static void hist_str(const hist_t *h, char *out, size_t cap) {
 typedef struct { int confirmed; int rfc, tld, mask; int setup_ok; int nfaults; int utf8_pending_fail; } model_t;
 static void model_init(model_t *m) { m->confirmed = -1; m->rfc = 3; m->tld = 1; m->mask = 0; m->setup_ok = 0; m->utf8_pending_fail = 0; }
 
-typedef struct { void *obj[3]; model_t m; int bad; char out[3][512]; } run_t;
+typedef struct { void *obj[3]; void *other[3]; model_t m; int bad; char out[3][512]; } run_t;
+static int TWO_OBJECTS = 0;    /* a second, independent object (mode 6531, defaults) is validated in between */
 
 static void violation_h(const char *sub, const char *why, const hist_t *h, const char *fmt, ...) {
     char msg[200], hs[MC_CASEMAX]; va_list ap; va_start(ap, fmt); vsnprintf(msg, sizeof msg, fmt, ap); va_end(ap);
@@ -169,10 +171,25 @@ static void apply(run_t *r, op_t o, const hist_t *h, int check) {
         case OP_FREEINIT: {
             l->free_(obj); MC_ADD(C_LIBCALLS, 1);
             if (check) {
-                if (l->ledger_live() != 0) violation_h("free", "free:allocation-not-released", h, "[%s] %d allocation(s) live after eav_free", l->name, l->ledger_live());
+                if (l->ledger_live() > (TWO_OBJECTS ? 1 : 0)) violation_h("free", "free:allocation-not-released", h, "[%s] %d allocation(s) live after eav_free", l->name, l->ledger_live());
                 if (l->ctx_live() != 0) violation_h("free", "free:resolver-context-not-released", h, "[%s] %d resolver context(s) live after eav_free", l->name, l->ctx_live());
             }
             l->init(obj); MC_ADD(C_LIBCALLS, 1);
+        } break;
+        case OP_OTHER: {
+            char before[1024], after[1024], got[512];
+            l->canon(obj, before, sizeof before);
+            const char *a = POOL[o.a];
+            int ret = l->is_email(r->other[li], a, strlen(a)); MC_ADD(C_LIBCALLS, 1);
+            l->canon(obj, after, sizeof after);
+            if (check) {
+                /* 'live=' counts all blocks of the process: mask it (the other object owns one) */
+                char *p1 = strstr(before, " live="), *p2 = strstr(after, " live="); if (p1) *p1 = 0; if (p2) *p2 = 0;
+                if (strcmp(before, after)) violation_h("other", "other-object:call-changed-this-object", h, "[%s] validating on ANOTHER eav_t changed this one: %s -> %s", l->name, before, after);
+                l->outcome(r->other[li], ret, got, sizeof got);
+                const char *want = fresh_outcome(li, 3, 1, 0, o.a, 0, (op_t){ OP_EMAIL, o.a, 0, 0 });
+                if (strcmp(got, want)) violation_h("other", "other-object:outcome-depends-on-first-object", h, "[%s] second object: %s ; fresh object: %s", l->name, got, want);
+            }
         } break;
         case OP_EMAIL: case OP_EMAILF: {
             if (o.t == OP_EMAILF) l->inject(IDNCODES[o.b], o.c);
@@ -211,7 +228,7 @@ static void apply(run_t *r, op_t o, const hist_t *h, int check) {
         if (check) {
             if (l->ledger_double_free()) violation_h("ledger", "ledger:double-free", h, "[%s] a block was freed twice", l->name);
             if (l->ledger_foreign_free()) violation_h("ledger", "ledger:free-of-unknown-pointer", h, "[%s] free() of a pointer the library never obtained", l->name);
-            if (l->ledger_live() > 1) violation_h("ledger", "ledger:previous-result-not-released", h, "[%s] %d blocks live (at most one result record may be)", l->name, l->ledger_live());
+            if (l->ledger_live() > 1 + (TWO_OBJECTS ? 1 : 0)) violation_h("ledger", "ledger:previous-result-not-released", h, "[%s] %d blocks live (at most one result record may be)", l->name, l->ledger_live());
             if (l->ctx_live() > 1) violation_h("ledger", "ctx:more-than-one-live-context", h, "[%s] %d resolver contexts live", l->name, l->ctx_live());
             if (l->ctx_errors()) violation_h("ledger", "ctx:destroy-or-use-of-dead-context", h, "[%s] error counter %d (1000*destroy-dead + use-dead)", l->name, l->ctx_errors());
             if (!strcmp(l->name, "idnkit") && (o.t == OP_SETUP) && m->setup_ok && m->confirmed != 3 && l->ctx_live() != 0)
@@ -227,12 +244,16 @@ static void apply(run_t *r, op_t o, const hist_t *h, int check) {
 static void run_begin(run_t *r, int poison) {
     if (NOPOISON) poison = -1;        /* leave the object memory uninitialised (for memcheck) */
     memset(r, 0, sizeof *r); model_init(&r->m); r->m.nfaults = 0;
-    for (int li = 0; li < NLIB; li++) { LIB[li].ledger_reset(); LIB[li].ctx_reset(); r->obj[li] = LIB[li].new_(poison); LIB[li].init(r->obj[li]); }
+    for (int li = 0; li < NLIB; li++) {
+        LIB[li].ledger_reset(); LIB[li].ctx_reset(); r->obj[li] = LIB[li].new_(poison); LIB[li].init(r->obj[li]);
+        if (TWO_OBJECTS) { r->other[li] = LIB[li].new_(poison); LIB[li].init(r->other[li]); if (LIB[li].setup(r->other[li])) exit(2); }
+    }
 }
 /* eav_free at the end of every history: everything released exactly once */
 static void run_end(run_t *r, const hist_t *h, int check) {
     for (int li = 0; li < NLIB; li++) {
         lib_t *l = &LIB[li];
+        if (TWO_OBJECTS) { l->free_(r->other[li]); l->delete_(r->other[li]); }
         l->free_(r->obj[li]);
         if (check) {
             if (l->ledger_live() != 0) violation_h("free", "free:allocation-not-released", h, "[%s] %d allocation(s) live after the final eav_free", l->name, l->ledger_live());
@@ -245,7 +266,8 @@ static void run_end(run_t *r, const hist_t *h, int check) {
 }
 static int state_key(run_t *r, char *out, size_t cap) {
     size_t n = 0;
-    for (int li = 0; li < NLIB; li++) { n += (size_t)LIB[li].canon(r->obj[li], out + n, cap - n); out[n++] = '|'; }
+    for (int li = 0; li < NLIB; li++) { n += (size_t)LIB[li].canon(r->obj[li], out + n, cap - n); out[n++] = '|';
+        if (TWO_OBJECTS) { n += (size_t)LIB[li].canon(r->other[li], out + n, cap - n); out[n++] = '|'; } }
     n += (size_t)snprintf(out + n, cap - n, "M:c=%d r=%d t=%d m=%d ok=%d f=%d pf=%d", r->m.confirmed, r->m.rfc, r->m.tld, r->m.mask, r->m.setup_ok, r->m.nfaults, r->m.utf8_pending_fail);
     return (int)n;
 }
@@ -259,6 +281,7 @@ static int enabled(const model_t *m, op_t *out) {
     out[n++] = (op_t){ OP_SETUP, 0, 0, 0 };
     if (CTXFAIL) { out[n++] = (op_t){ OP_SETUPF, 0, 0, 0 }; out[n++] = (op_t){ OP_SETUPF, 1, 0, 0 }; }
     out[n++] = (op_t){ OP_FREEINIT, 0, 0, 0 };
+    if (TWO_OBJECTS) { out[n++] = (op_t){ OP_OTHER, 0, 0, 0 }; out[n++] = (op_t){ OP_OTHER, 3, 0, 0 }; out[n++] = (op_t){ OP_OTHER, 5, 0, 0 }; }
     if (m->setup_ok && !m->utf8_pending_fail) {
         for (int a = 0; a < NPOOL; a++) out[n++] = (op_t){ OP_EMAIL, (unsigned char)a, 0, 0 };
         if (FAULTS && m->nfaults < FAULT_BOUND && m->confirmed == 3)
@@ -336,6 +359,9 @@ static void bfs(long shard, void *arg) {
                 if (p == 0 && ops[k].t == OP_FREEINIT) {
                     /* free+init leads to the state of a first init (settings default, nothing remembered) */
                     char *mpos = strstr(keyp[0], "|M:"), *ipos = strstr(initkey, "|M:");
+                    if (TWO_OBJECTS) {   /* only this object's own serialisation, without the process-wide block count */
+                        mpos = strstr(keyp[0], " live="); ipos = strstr(initkey, " live=");
+                    }
                     if (mpos && ipos && ((mpos - keyp[0]) != (ipos - initkey) || strncmp(keyp[0], initkey, (size_t)(mpos - keyp[0])) != 0))
                         violation_h("reinit", "reinit:state-differs-from-first-init", &h2, "after eav_free;eav_init: %s ; after a first eav_init: %s", keyp[0], initkey);
                 }
@@ -474,6 +500,7 @@ int main(int argc, char **argv) {
         else if (!strcmp(argv[i], "--ctxfail")) CTXFAIL = 1;
         else if (!strcmp(argv[i], "--maxdepth") && i + 1 < argc) MAXDEPTH = atoi(argv[++i]);
         else if (!strcmp(argv[i], "--nopoison")) NOPOISON = 1;
+        else if (!strcmp(argv[i], "--two-objects")) TWO_OBJECTS = 1;
     }
     for (int i = 0; i < nl; i++) load_lib(libs[i]);
     if (!NLIB) { fprintf(stderr, "no --lib\n"); return 2; }
